@@ -64,6 +64,17 @@ fn inputs() -> Vec<Input> {
         Input::File(s("non-utf8-name"), b"<a><\xff/></a>".to_vec()),
         Input::File(s("non-utf8-attribute-value"), b"<a title=\"Stra\xdfe\"><b/></a>".to_vec()),
         Input::File(s("non-utf8-comment"), b"<a><!-- \xe9 --><b/></a>".to_vec()),
+        Input::File(s("valid-depth-300"), {
+            let mut x = String::new();
+            for i in 0..300 {
+                x.push_str(&format!("<n{}>", i % 7));
+            }
+            x.push_str("<leaf k=\"v\">t</leaf>");
+            for i in (0..300).rev() {
+                x.push_str(&format!("</n{}>", i % 7));
+            }
+            x.into_bytes()
+        }),
         Input::Pipe(s("valid-through-pipe"), b"<r z=\"1\"><b n=\"1\"/><b/>t</r>\n".to_vec()),
         Input::Pipe(s("malformed-through-pipe"), b"<r><b></r>".to_vec()),
         Input::Missing,
@@ -74,7 +85,7 @@ fn inputs() -> Vec<Input> {
 const PARSERS: &[Option<&str>] = &[None, Some("quick-xml-de"), Some("serde-xml-rs")];
 const DERIVES: &[Option<&str>] = &[None, Some("Debug"), Some(""), Some("Clone, Debug"), Some("Debug,Clone"), Some(" Debug , Clone,")];
 const SORTS: &[Option<&str>] = &[None, Some("unsorted"), Some("name")];
-const OUTPUTS: &[&str] = &["stdout", "new-file", "existing-file", "missing-directory", "is-directory", "existing-file-same-length", "file-named-dash"];
+const OUTPUTS: &[&str] = &["stdout", "new-file", "existing-file", "missing-directory", "is-directory", "existing-file-same-length", "file-named-dash", "existing-empty-file", "dev-null"];
 const HEADER: &str = "use serde::{Deserialize, Serialize};\n\n";
 /// longer than any rendering of the inputs, so that a missing truncation shows
 const OLD_CONTENT: &[u8] = &[b'/'; 6000];
@@ -184,6 +195,13 @@ fn run_case(ctx: &Ctx, bin: &Path, all: &[Input], idx: u64, work: &Path) -> Vec<
             Some(p)
         }
         "file-named-dash" => Some(PathBuf::from("-")),
+        "dev-null" => Some(PathBuf::from("/dev/null")),
+        "existing-empty-file" => {
+            let p = dir.join("out.rs");
+            let _ = std::fs::write(&p, b"");
+            let _ = Command::new("touch").args(["-d", "2001-01-01 00:00:00"]).arg(&p).status();
+            Some(p)
+        }
         "existing-file-same-length" => {
             // an existing file of exactly the length of the expected output, with other content
             let p = dir.join("out.rs");
@@ -235,7 +253,7 @@ fn run_case(ctx: &Ctx, bin: &Path, all: &[Input], idx: u64, work: &Path) -> Vec<
     };
     let code = output.status.code();
     let stdout = output.stdout.clone();
-    let creatable = matches!(OUTPUTS[c.output], "stdout" | "new-file" | "existing-file" | "existing-file-same-length" | "file-named-dash");
+    let creatable = matches!(OUTPUTS[c.output], "stdout" | "new-file" | "existing-file" | "existing-file-same-length" | "file-named-dash" | "existing-empty-file" | "dev-null");
     match (&want, creatable) {
         (Some(text), true) => {
             if code != Some(0) {
@@ -254,6 +272,7 @@ fn run_case(ctx: &Ctx, bin: &Path, all: &[Input], idx: u64, work: &Path) -> Vec<
                     }
                     let p = &dir.join(p);
                     match std::fs::read(p) {
+                        _ if OUTPUTS[c.output] == "dev-null" => {}
                         Ok(b) if b == text.as_bytes() => {}
                         Ok(b) => bad("file-content", format!("output file holds {:?} but should hold {:?}", String::from_utf8_lossy(&b), text)),
                         Err(e) => bad("file-content", format!("output file unreadable: {}", e)),
@@ -279,7 +298,7 @@ fn run_case(ctx: &Ctx, bin: &Path, all: &[Input], idx: u64, work: &Path) -> Vec<
                             bad("output-created", "the output file was created although the input was at fault".into());
                         }
                     }
-                    "existing-file" | "existing-file-same-length" => {
+                    "existing-file" | "existing-file-same-length" | "existing-empty-file" => {
                         let p = out_path.as_ref().unwrap();
                         let same = std::fs::read(p).map(|b| b == OLD_CONTENT || b.iter().all(|x| *x == b'#')).unwrap_or(false);
                         let mtime_after = std::fs::metadata(p).ok().and_then(|m| m.modified().ok());
